@@ -22,6 +22,23 @@ import (
 type Flow struct {
 	G  *cfgq.Graph
 	sw map[*ast.CaseClause]*ast.SwitchStmt
+	// Expand, when set, rewrites a branch condition before it is split into
+	// atoms (used to inline one-line predicate helpers).
+	Expand func(ast.Expr) ast.Expr
+}
+
+// Inlining makes the flow see through one-line predicate helpers of package
+// pkgPath (and closures bound to locals of scope) in branch conditions.
+func (f *Flow) Inlining(p *core.Program, info *types.Info, scope ast.Node, pkgPath string) *Flow {
+	f.Expand = func(e ast.Expr) ast.Expr { return InlineOneLiners(p, info, scope, e, pkgPath, 0) }
+	return f
+}
+
+func (f *Flow) expand(e ast.Expr) ast.Expr {
+	if f.Expand != nil {
+		return f.Expand(e)
+	}
+	return e
 }
 
 // NewFlow indexes the switch statements of the graph's body.
@@ -56,7 +73,7 @@ func (f *Flow) Facts(b *cfg.Block, succ int) []cfgq.Fact {
 			return nil
 		}
 		if s.Tag == nil {
-			return cfgq.Facts(e, succ == 0)
+			return cfgq.Facts(f.expand(e), succ == 0)
 		}
 		return []cfgq.Fact{{Expr: &ast.BinaryExpr{X: s.Tag, Op: token.EQL, Y: e}, Val: succ == 0}}
 	}
@@ -64,7 +81,7 @@ func (f *Flow) Facts(b *cfg.Block, succ int) []cfgq.Fact {
 	case cfg.KindSelectCaseBody, cfg.KindRangeBody:
 		return nil
 	}
-	return cfgq.Facts(e, succ == 0)
+	return cfgq.Facts(f.expand(e), succ == 0)
 }
 
 // Alts returns atoms of which at least one holds when cond evaluates to val
@@ -106,7 +123,7 @@ func (f *Flow) alts(b *cfg.Block, succ int) []cfgq.Fact {
 			return nil
 		}
 	}
-	return Alts(e, succ == 0)
+	return Alts(f.expand(e), succ == 0)
 }
 
 // Edge builds an AvoidEdge predicate: the edge establishes a fact accepted by
